@@ -40,12 +40,23 @@ def run(ctx):
     for m in conts:
         b = methods[m]
         ctx.fn(b)
-        for t, d, rb in b.return_values():
+        work = [(b, t, d, None) for t, d, rb in b.return_values()]
+        while work:
+            b, t, d, caller = work.pop(0)
             t = strip(t)
-            key = '%s/return@%s' % (m, b.where(d[1], d[2]).split(':')[-1] if False else _gkey(b, d))
+            key = '%s/return@%s' % (m, _gkey(b, d)) if caller is None else '%s/return@%s/%s@%s' % (m, _gkey(caller[0], caller[2]), b.path.split('::')[-1], _gkey(b, d))
             if isinstance(t, tuple) and t[0] == 'call' and t[1] in entry_paths and t[1] != b.path and util.is_param(t[2], 1):
                 ok = util.is_param(t[3], 2) and util.is_param(t[4], 3)
                 ctx.check(ok, 'R04.1', key, b.where(d[1], d[2]), b.path, 'delegation to the sibling continuation must pass pose and previous unchanged', detail='delegates to ' + entry_paths[t[1]])
+                continue
+            if not (isinstance(t, tuple) and t[0] == 'call' and t[1] in fr) and caller is None and isinstance(t, tuple) and t[0] == 'call' and \
+                    t[1] in prog.bodies and prog.bodies[t[1]].raw.get('impl_self') == opw.OPW and not prog.bodies[t[1]].raw.get('impl_trait') and \
+                    prog.bodies[t[1]].kind != 'Closure' and len(t) > 2 and util.is_param(t[2], 1):
+                # the tail (normalise, sort, filter) may live in a helper method of the solver: its return paths are judged
+                hb = prog.bodies[t[1]]
+                ctx.fn(hb)
+                for t2, d2, rb2 in hb.return_values():
+                    work.append((hb, t2, d2, (b, t, d)))
                 continue
             if not (isinstance(t, tuple) and t[0] == 'call' and t[1] in fr):
                 ctx.violation('R04.1', key, b.where(d[1], d[2]), b.path,
@@ -77,7 +88,7 @@ def run(ctx):
                           found=hinfo['found'], detail=hinfo['found'])
                 ctx.check(pref == sref, 'R04.5', m + '/same-reference', b.where(sbb), b.path,
                           'normalisation and sorting must use the same reference vector', found='%s vs %s' % (show(pref, maxdepth=3), show(sref, maxdepth=3)))
-                _sentinel(ctx, b, m, sref)
+                _sentinel_via(ctx, b, m, sref, caller)
                 ctx.check(ok, 'R04.1', key, b.where(fbb), b.path, 'the returned vector is not normalise -> sort -> filter: ' + msg, detail=msg)
                 continue
             if ok:
@@ -113,7 +124,7 @@ def run(ctx):
                     sref = strip(b.op_term(sorts[0][1]['args'][2], (sbb, None)))
                     ctx.check(isinstance(pj, tuple) and pj[0] == 'idx' and strip(pj[1]) == sref, 'R04.5', m + '/same-reference', b.where(sbb), b.path,
                               'normalisation and sorting must use the same reference vector', found='%s vs %s' % (show(pj, maxdepth=3), show(sref, maxdepth=3)))
-                    _sentinel(ctx, b, m, sref)
+                    _sentinel_via(ctx, b, m, sref, caller)
             ctx.check(ok, 'R04.1', key, b.where(fbb), b.path, 'the returned vector is not normalise -> sort -> filter: ' + msg, detail=msg)
 
     _near_normaliser(ctx, prog, norm)
@@ -224,6 +235,15 @@ def _normalise_helper_site(prog, b, vec, norm):
     return None
 
 
+def _vec_id(v):
+    """local number of the vector a term roots in: a mutably borrowed local, or a (by-value, mutable) parameter"""
+    if isinstance(v, tuple) and v[0] == 'mutb':
+        return v[1]
+    if isinstance(v, tuple) and v[0] in ('param', 'mparam'):
+        return v[1]
+    return None
+
+
 def _norm_target(b, site):
     """(vec_local, row_domain_ok, j_term) of the element handed to the near-normaliser:
     `&mut vec[s][j]` with s in 0..vec.len(), or `&mut row[j]` with row from vec.iter_mut()."""
@@ -247,7 +267,7 @@ def _norm_target(b, site):
                     v = base
                     while isinstance(v, tuple) and (v[0] in ('ref', 'deref') or (v[0] == 'call' and cname(v[1]) in ('DerefMut::deref_mut', 'Deref::deref'))):
                         v = v[1] if v[0] in ('ref', 'deref') else v[2]
-                    vec = v[1] if isinstance(v, tuple) and v[0] == 'mutb' else None
+                    vec = _vec_id(v)
                     dom = vec is not None and all(a in ('iter_mut', 'into_iter') for a in ad) and 'iter_mut' in ad
                     return vec, dom, ('zip', strip(rb))
         return None, False, None
@@ -261,7 +281,7 @@ def _norm_target(b, site):
         v = inner[2]
         while isinstance(v, tuple) and v[0] in ('ref', 'deref'):
             v = v[1]
-        vec = v[1] if isinstance(v, tuple) and v[0] == 'mutb' else None
+        vec = _vec_id(v)
         s_idx = inner[3]
         src = util.loop_source(s_idx)
         sr = util.range_of(src) if src is not None else None
@@ -273,7 +293,7 @@ def _norm_target(b, site):
         v = base
         while isinstance(v, tuple) and (v[0] in ('ref', 'deref') or (v[0] == 'call' and cname(v[1]) in ('DerefMut::deref_mut', 'Deref::deref'))):
             v = v[1] if v[0] in ('ref', 'deref') else v[2]
-        vec = v[1] if isinstance(v, tuple) and v[0] == 'mutb' else None
+        vec = _vec_id(v)
         dom = vec is not None and all(a in ('iter_mut', 'into_iter') for a in ad) and 'iter_mut' in ad
         return vec, dom, j
     return None, False, None
@@ -285,7 +305,7 @@ def _is_len_of(b, t, vec):
         v = t[2]
         while isinstance(v, tuple) and v[0] in ('ref', 'deref'):
             v = v[1]
-        return isinstance(v, tuple) and v[0] == 'mutb' and v[1] == vec
+        return _vec_id(v) == vec
     return False
 
 
@@ -296,6 +316,16 @@ def _loop_header_dominates(b, inner_bb, later_bb):
         if 'next' in show(t, maxdepth=3) and b.dominates(d, later_bb) and later_bb in b.edge_dominated(d, 0):
             return True
     return False
+
+
+def _sentinel_via(ctx, b, m, sref, caller):
+    """the reference vector as the entry point sees it: inside a tail helper it is a parameter, the entry point's argument counts"""
+    if caller is not None:
+        pi = util.param_index(sref)
+        cb, ct, cd = caller
+        if pi is not None and 1 + pi < len(ct):
+            return _sentinel(ctx, cb, m, strip(ct[1 + pi]))
+    return _sentinel(ctx, b, m, sref)
 
 
 def _sentinel(ctx, b, m, sref):
